@@ -108,13 +108,13 @@ def r3(ctx):
         args = [S(x) for x in b.call_args(c)]
         ctx.check('absorb_system_clock_offset_change|same-clock', re.match(idt, args[1]) is not None, 'absorbs for %s' % args[1][-40:], c.where(), sample=True)
         ctx.check('absorb_system_clock_offset_change|same-step', args[2] == d, 'absorbed %s, stepped %s' % (N(b.call_args(c)[2]), N(b.call_args(st)[1])), c.where(), sample=N(b.call_args(c)[2]))
-        ctx.guard(b, c, 'system-clock', fact_cmp('Eq', r'^index$', r'^0$', names=True), key='absorb_system_clock_offset_change|index==0')
+        ctx.guard(b, c, 'system-clock', fact_cmp('Eq', '^' + ELEM[:-len(r'\.1')] + r'\.0$', r'^0$'), key='absorb_system_clock_offset_change|index==0')
         ctx.guard(b, c, 'step-ok', fact_is(r'^Result::branch\(Clock::step_clock\(', 'Continue'), key='absorb_system_clock_offset_change|after-step-ok')
     for c in oth:
         args = [S(x) for x in b.call_args(c)]
         ctx.check('absorb_offset_change|same-clock', re.match(idt, args[1]) is not None, 'absorbs for %s' % args[1][-40:], c.where(), sample=True)
         ctx.check('absorb_offset_change|same-step', re.match(r'^-\(%s\)$' % off, args[2]) is not None, 'absorbed %s' % N(b.call_args(c)[2]), c.where(), sample=N(b.call_args(c)[2]))
-        ctx.guard(b, c, 'other-clock', fact_cmp('Ne', r'^index$', r'^0$', names=True), key='absorb_offset_change|index!=0')
+        ctx.guard(b, c, 'other-clock', fact_cmp('Ne', '^' + ELEM[:-len(r'\.1')] + r'\.0$', r'^0$'), key='absorb_offset_change|index!=0')
         ctx.guard(b, c, 'step-ok', fact_is(r'^Result::branch\(Clock::step_clock\(', 'Continue'), key='absorb_offset_change|after-step-ok')
     ctx.check('step_clock|always-absorbed', passes_before_ok(b, st.bb, [c.bb for c in sysc + oth]), 'a successful return is reachable after step_clock without absorbing the offset change', st.where(), sample=len(sysc) + len(oth))
     # index 0 is the system clock: new() pushes it first and remove_clock refuses clocks[0]
@@ -125,7 +125,7 @@ def r3(ctx):
     ws = b.field_writes('filter', r'KalmanControllerState')
     ctx.check('filter|stored-once', len(ws) == 1, 'writes of self.filter in steer_clocks: %d' % len(ws), sample=len(ws))
     for s in ws:
-        ctx.check('filter|stored-is-absorbed', N(b.rvalue_term(s.data['rv'])).startswith('filter') and re.search(r'absorb_frequency_steer', written_value(b, s)) is not None and re.search(r'absorb_offset_change', written_value(b, s)) is not None,
+        ctx.check('filter|stored-is-absorbed', re.match(r'^\w+\{', N(b.rvalue_term(s.data['rv']))) is not None and re.search(r'absorb_frequency_steer', written_value(b, s)) is not None and re.search(r'absorb_offset_change', written_value(b, s)) is not None,
                   'self.filter = %s' % N(b.rvalue_term(s.data['rv'])), s.where(), sample=N(b.rvalue_term(s.data['rv'])))
 
 
